@@ -386,6 +386,47 @@ func main() {
 				e.Strs("caseFlagOverride", ov, "parseSeqQLFieldFilter: how caseSensitive is computed")
 			}
 		}
+		// does the legacy range-bound builder (singleTermBuilder.appendRune) apply the case rule?  always emitted
+		legacyRangeLower := false
+		if f, err := r.Load("parser/term_builder.go"); err == nil {
+			if fd := f.Func("singleTermBuilder", "appendRune"); fd != nil {
+				var st []string
+				for _, x := range fd.Body.List {
+					st = append(st, f.Render(x))
+				}
+				e.Strs("singleTermAppendRuneBody", st, "singleTermBuilder.appendRune: statements")
+				body := strings.Join(st, " ; ")
+				legacyRangeLower = strings.Contains(body, "if !b.caseSensitive { r = unicode.ToLower(r) }") || strings.Contains(body, "if !b.caseSensitive { // range bounds")
+				for _, x := range fd.Body.List {
+					if is, ok := x.(*ast.IfStmt); ok && f.Render(is.Cond) == "!b.caseSensitive" && strings.Contains(f.Render(is.Body), "r = unicode.ToLower(r)") {
+						legacyRangeLower = true
+					}
+				}
+			}
+		}
+		if f, err := r.Load("parser/token_parser.go"); err == nil {
+			var calls []string
+			for _, fn := range []string{"parseRange", "parseRangeTerm", "parseLiteral"} {
+				if fd := f.Func("tokenParser", fn); fd != nil {
+					ast.Inspect(fd.Body, func(n ast.Node) bool {
+						switch v := n.(type) {
+						case *ast.CallExpr:
+							name := f.Render(v.Fun)
+							if name == "tp.parseRange" || name == "tp.parseRangeTerm" {
+								calls = append(calls, fn+": "+f.Render(v))
+							}
+						case *ast.CompositeLit:
+							if f.Render(v.Type) == "singleTermBuilder" {
+								calls = append(calls, fn+": "+f.Render(v))
+							}
+						}
+						return true
+					})
+				}
+			}
+			e.Strs("legacyRangeCaseCalls", calls, "legacy range parsing: how the case flag reaches the bound builder")
+		}
+		e.Bool("legacyRangeLowercases", legacyRangeLower, "singleTermBuilder.appendRune lower-cases unless caseSensitive")
 		if f, err := r.Load("parser/term_builder.go"); err != nil {
 			e.Missing("appendRuneInternalBody", err)
 		} else if fd := f.Func("baseTokenBuilder", "appendRuneInternal"); fd == nil {
